@@ -11,6 +11,8 @@ import (
 	"regexp"
 	"sort"
 	"strings"
+
+	"golang.org/x/tools/go/ssa"
 )
 
 type Obligation struct {
@@ -58,6 +60,10 @@ type Unit struct {
 	oblLines  map[int]bool // script lines that assume an earlier obligation's goal
 	assumedAt map[string]int
 	constErrs []string
+	// replay: the function, contract and parameter terms of a function unit
+	replayFn     *ssa.Function
+	replayCon    *Contract
+	replayParams []string
 }
 
 type allocSite struct {
